@@ -44,6 +44,7 @@ func h02a(NR, ND int) {
 	hasErr := vBool("hasErr")
 	unaryResp := vInt("unaryResp", 0, 2) // nothing, data, error
 	preset := vBool("preset")
+	defAt := vInt("defAt", 0, 2) // index of the request message that carries the response definition
 
 	data := make([][]byte, 0, 3)
 	for i := 0; i < nData; i++ {
@@ -70,25 +71,25 @@ func h02a(NR, ND int) {
 		switch kind {
 		case 0:
 			r := &conformancev1.UnaryRequest{}
-			if i == 0 {
+			if i == defAt {
 				r.ResponseDefinition = udef
 			}
 			m = r
 		case 1:
 			r := &conformancev1.ClientStreamRequest{}
-			if i == 0 {
+			if i == defAt {
 				r.ResponseDefinition = udef
 			}
 			m = r
 		case 2:
 			r := &conformancev1.ServerStreamRequest{}
-			if i == 0 {
+			if i == defAt {
 				r.ResponseDefinition = sdef
 			}
 			m = r
 		default:
 			r := &conformancev1.BidiStreamRequest{FullDuplex: streamType == 5}
-			if i == 0 {
+			if i == defAt {
 				r.ResponseDefinition = sdef
 			}
 			m = r
@@ -117,7 +118,25 @@ func h02a(NR, ND int) {
 	}
 	err := populateExpectedResponse(tc) // obligation: no reachable panic
 	vAssert(err != nil || tc.ExpectedResponse != nil, "either an expectation is derived or the case is rejected with an error")
-	if err == nil && !preset && streamType >= 3 && streamType <= 5 && nReq > 0 && hasDef && kind >= 2 && kind <= 3 {
+	// the reference servers take the response definition from the first message they receive, and only from it
+	if err == nil && !preset && streamType >= 1 && streamType <= 2 && nReq > 0 && kind <= 1 {
+		exp := tc.ExpectedResponse
+		used := hasDef && defAt == 0
+		vAssert((exp.Error != nil) == (used && unaryResp == 2), "unary / client stream: an error is expected iff the first request's definition has one")
+		if exp.Error == nil {
+			vAssert(len(exp.Payloads) == 1, "unary / client stream without error: exactly one expected payload")
+			if len(exp.Payloads) == 1 {
+				p := exp.Payloads[0]
+				vAssert((len(p.Data) == 1 && p.Data[0] == 7) == (used && unaryResp == 1), "the expected payload carries the first request's response data, and only that")
+				vAssert(p.RequestInfo != nil && len(p.RequestInfo.Requests) == nReq, "the expected payload echoes all requests")
+			}
+		}
+	}
+	if err == nil && !preset && streamType >= 3 && streamType <= 5 && nReq > 0 && kind >= 2 && kind <= 3 && !(hasDef && defAt == 0) {
+		exp := tc.ExpectedResponse
+		vAssert(len(exp.Payloads) == 0 && exp.Error == nil, "streams: no definition in the first request means nothing is expected back")
+	}
+	if err == nil && !preset && streamType >= 3 && streamType <= 5 && nReq > 0 && hasDef && defAt == 0 && kind >= 2 && kind <= 3 {
 		exp := tc.ExpectedResponse
 		vAssert(len(exp.Payloads) == nData, "one expected payload per response_data item")
 		for i := 0; i < ND; i++ {
